@@ -769,6 +769,17 @@ def dde_models():
     d17 = dict(name="d17", eqs=[["x", "de", ["+", ["+", ["neg", V("x")], ["*", N(0.5), ["pow", ["past", "x", 0.3], 2]]],
                                                  ["*", N(0.25), ["pow", ["past", "x", 0.8], 3]]]]], vars={"x": ["output", 0.6]})
     out.append(("H17-two-delays-nonlinear-in-the-delayed-state", dict(delays=[0.3, 0.8]), model([d17], {"p": dict(ops=["d17"])})))
+    # TWO delayed states inside ONE non-linearity; the one met first in the equation (w) comes after the other (u) alphabetically
+    d18 = dict(name="d18", eqs=[["u", "de", ["+", ["neg", ["/", V("u"), V("tau")]],
+                                             ["*", V("k"), ["call", "sigmoid", ["+", ["*", V("a"), ["past", "w", 1.25]], ["*", V("c"), ["past", "u", 0.5]]]]]]],
+                                ["w", "de", ["+", ["neg", V("w")], ["*", V("b"), ["call", "tanh", V("u")]]]]],
+               vars={"u": ["output", 0.3], "w": ["state", -0.2], "tau": ["const", 2.0], "k": ["const", 1.5], "a": ["const", 0.8], "c": ["const", -0.6],
+                     "b": ["const", 0.7]})
+    out.append(("H18-two-delayed-states-in-one-nonlinearity", dict(delays=[0.5, 1.25]), model([d18], {"p": dict(ops=["d18"])})))
+    d19 = dict(name="d19", eqs=[["u", "de", ["+", ["neg", V("u")], ["*", ["past", "z", 0.75], ["past", "a", 0.25]]]],
+                                ["z", "de", ["-", V("a"), V("z")]], ["a", "de", ["-", V("u"), V("a")]]],
+               vars={"u": ["output", 0.3], "z": ["state", -0.2], "a": ["state", 0.5]})
+    out.append(("H19-product-of-two-delayed-states", dict(delays=[0.25, 0.75]), model([d19], {"p": dict(ops=["d19"])})))
     # negative coefficient in front of a delayed term inside a sum (printing of ` - 2.0*past(...)`)
     d7 = dict(name="d7", eqs=[["x", "de", ["-", V("z"), V("x")]],
                               ["z", "de", ["-", V("x"), ["*", N(2.0), ["past", "z", 0.5]]]]],
